@@ -175,3 +175,21 @@ def argsort_option_leaves_offset_origin(case, why):
     are shifted by the origin (ListOffset(offsets=[1,3]) over option [5,4,3] = [[4,3]] gives [[0,-1]], not [[1,0]])."""
     return (case.get("act") == "argsort" and _has_option(case.get("from")) and _nonzero_origin(case.get("from"))
             and why.startswith("value differs"))
+
+
+def builder_clear_after_record(case, why):
+    """F18: ArrayBuilder.clear() after records/tuples were appended leaves a record/tuple builder with length -1
+    in the tree; later non-record values that join it in an option/union are shown as None
+    (null, begintuple(2), endtuple, clear, integer(1) -> [None])."""
+    if case.get("act") != "builder":
+        return False
+    cmds = [c["c"] for c in case.get("cmds", [])]
+    import re
+    m = re.match(r"command (\d+) ", why)
+    if not m:
+        return False
+    at = int(m.group(1))
+    # a clear() before the deviating command that itself comes after a record/tuple was begun
+    stale = any(cmds[i] == "clear" and any(c in ("beginrecord", "begintuple") for c in cmds[:i]) for i in range(at))
+    return stale and ("differs from appended values" in why or "ill-nested call accepted" in why
+                      or "well-nested call raised" in why)
